@@ -33,6 +33,7 @@ void mv_idle_cancel(struct mv_idle_cell* cell);
 extern void (*mv_on_deadlock)(const char* dump);
 // statistics of the current execution
 uint64_t mv_sched_points(void);
+uint64_t mv_time_heur(void);            // clock advances made by the polling heuristics (a polling thread ran alone / all runnable threads were polling)
 uint64_t mv_time_devs(void);            // TIME deviations taken so far: the clock moved although a thread could have run (models a stalled vCPU)
 uint64_t mv_time_jumps(void);           // number of times the clock advanced because no thread could run (quiescent states reached)
 #ifdef __cplusplus
